@@ -60,7 +60,7 @@ pub fn h_or<M: VMode, Er: VEr>() {
             }
         }
         if !Er::ZST {
-            vassert!(s.alt == alt_fold(&s0, &[&a, &b]), "C06/or.pending-error-is-furthest-offer");
+            vassert!(Offers::of(&s0, &[&a, &b]).matches(&s), "C06/or.pending-error-is-furthest-offer");
         }
     });
 }
@@ -106,7 +106,7 @@ macro_rules! seq2_asserts {
         vassert!($v[8], "C05/seq.emissions-of-both-parts-in-order");
         vassert!($v[9], "C18/seq.inspector-at-position-after-success");
         if !$zst {
-            vassert!($s.alt == alt_fold(&$s0, &[&$a, &$b]), "C06/seq.pending-error-is-furthest-offer");
+            vassert!(Offers::of(&$s0, &[&$a, &$b]).matches(&$s), "C06/seq.pending-error-is-furthest-offer");
         }
         vcover!($a.ok && $b.called && $b.ok, "seq: both succeed");
         vcover!($a.ok && $b.called && !$b.ok, "seq: right fails");
@@ -166,7 +166,7 @@ pub fn h_or_not<M: VMode, Er: VEr>() {
         }
         vassert!(s.believed == s.pos, "C18/or_not.inspector-at-position");
         if !Er::ZST {
-            vassert!(s.alt == alt_fold(&s0, &[&a]), "C06/or_not.pending-error-is-furthest-offer");
+            vassert!(Offers::of(&s0, &[&a]).matches(&s), "C06/or_not.pending-error-is-furthest-offer");
         }
     });
 }
@@ -230,7 +230,7 @@ pub fn h_and_is<M: VMode, Er: VEr>() {
             vassert!(SecSpec::pre(&s0).prefix_of(&s, Er::ZST), "C05/and_is.failure-keeps-earlier-emissions");
         }
         if !Er::ZST {
-            vassert!(s.alt == alt_fold(&s0, &[&a, &b]), "C06/and_is.pending-error-is-furthest-offer");
+            vassert!(Offers::of(&s0, &[&a, &b]).matches(&s), "C06/and_is.pending-error-is-furthest-offer");
         }
     });
 }
@@ -256,7 +256,7 @@ pub fn h_rewind<M: VMode, Er: VEr>() {
             vassert!(SecSpec::pre(&s0).prefix_of(&s, Er::ZST), "C05/rewind.failure-keeps-earlier-emissions");
         }
         if !Er::ZST {
-            vassert!(s.alt == alt_fold(&s0, &[&a]), "C06/rewind.pending-error-is-furthest-offer");
+            vassert!(Offers::of(&s0, &[&a]).matches(&s), "C06/rewind.pending-error-is-furthest-offer");
         }
     });
 }
